@@ -79,7 +79,7 @@ def layout(mantissa):
 class Proof:
     pass
 
-def prove(r, gen, mantissa, exp, min_value, digits=None, blind=None, extra=b'', b0_or=0, small_s=True, has_min=None):
+def prove(r, gen, mantissa, exp, min_value, digits=None, blind=None, extra=b'', b0_or=0, small_s=True, has_min=None, forged_at=None, sec_at=None):
     """adversarial prover.  mantissa 0 = exact-value proof (no range).  exp is what is WRITTEN in the
     header (any 0..31); the group elements use scale = 10^exp.  All randomness from r (Rng).
     Forged s values are small (< 2^120) when small_s so that s + n still fits in 32 bytes."""
@@ -90,8 +90,8 @@ def prove(r, gen, mantissa, exp, min_value, digits=None, blind=None, extra=b'', 
     v = sum(d << (2 * i) for i, d in enumerate(digits))
     sec = [r.seckey() for _ in range(rings)]
     if blind is not None: sec[-1] = (blind - sum(sec[:-1])) % N
+    for i, x in (sec_at or {}).items(): sec[i] = x
     blind = sum(sec) % N
-    if sec[-1] == 0: return None
     value = v * scale + min_value
     commit = lin(blind, G, value, gen)
     if commit is None: return None
@@ -112,6 +112,12 @@ def prove(r, gen, mantissa, exp, min_value, digits=None, blind=None, extra=b'', 
     m = sha256(ser_point(commit) + ser_point(gen) + hdr + hashed + extra)
     k = [r.seckey() for _ in range(rings)]
     forged = [(r.bits(r.choice([1, 8, 64, 120])) or 1) if small_s else r.seckey() for _ in pubs]
+    if forged_at:      # caller-chosen forged scalars at (ring, position) -> value; secret positions are skipped
+        c = 0
+        for i, rs in enumerate(rsizes):
+            for j in range(rs):
+                if j != digits[i] and (i, j) in forged_at: forged[c + j] = forged_at[(i, j)]
+            c += rs
     res = borromean_sign(pubs, rsizes, digits, sec, k, forged, m)
     if res is None: return None
     e0, s = res
